@@ -692,6 +692,10 @@ class VM:
             ):
                 raise JSTypeError("Right-hand side of instanceof is not callable")
 
+            # x instanceof boundFunction asks the target of the bound function
+            while hasattr(constructor, "_original_func"):
+                constructor = constructor._original_func
+
             # Check prototype chain
             if not isinstance(obj, JSObject):
                 self.stack.append(False)
@@ -2797,6 +2801,11 @@ class VM:
         constructor = self.stack.pop()
 
         if isinstance(constructor, JSFunction):
+            # new on a bound function constructs its target: the bound this is
+            # not used, the bound arguments are
+            while hasattr(constructor, "_original_func"):
+                args = list(constructor._bound_args) + args
+                constructor = constructor._original_func
             if hasattr(constructor, "_lexical_this"):
                 raise JSTypeError("An arrow function is not a constructor")
             # Create new object; its prototype is the constructor's prototype
